@@ -1,5 +1,7 @@
 // C03 harness: one real qnet.TcpConn per scenario over loopback TCP, driven by
 // verifharness/connsim (gated = serialized through the verifPoint gates, free = full speed).
+// Scenarios run in child processes (a panic on a goroutine of the code under test is an
+// observed outcome, not the end of the run).
 // input    = scenario (see connsim.Cfg.Sx)
 // observed = see coq/C03/Replay.v
 package main
@@ -7,23 +9,27 @@ package main
 import (
 	"io"
 	"log"
+	"strconv"
 	"strings"
 
 	. "verifharness/common"
 	"verifharness/connsim"
 )
 
-var lastNotes []string
-
 func run(in Sx) Sx {
-	obs, notes := connsim.Run(connsim.CfgOfSx(in))
-	lastNotes = notes
+	obs, _ := connsim.RunIsolated(in)
 	return obs
 }
 
 func main() {
 	log.SetOutput(io.Discard)
+	connsim.ChildMain()
 	Main(run, gen)
+}
+
+type job struct {
+	kind string
+	cfg  connsim.Cfg
 }
 
 func gen(a Args, out *Out) {
@@ -31,33 +37,6 @@ func gen(a Args, out *Out) {
 	mult := 1
 	if a.Thorough() {
 		mult = 15
-	}
-	emit := func(kind string, c connsim.Cfg) {
-		in := c.Sx()
-		obs := run(in)
-		out.Case(kind, connsim.Nontrivial(c), in, obs)
-		np := 0
-		for _, s := range c.Senders {
-			np += len(s)
-		}
-		out.CountN("packets-offered", np)
-		out.CountN("inbound-frames-offered", len(c.Input))
-		out.Count("codec:V" + string(rune('0'+c.Codec)))
-		if c.Cipher {
-			out.Count("cipher:on")
-		} else {
-			out.Count("cipher:off")
-		}
-		out.Count("ocap:" + itoa(c.Ocap))
-		for _, n := range lastNotes {
-			if strings.HasPrefix(n, "stuck:") {
-				out.Count("stuck-state-established")
-				out.Note("%s: %s", kind, n)
-			} else {
-				out.Count("inconclusive-observation")
-				out.Note("%s: inconclusive: %s", kind, n)
-			}
-		}
 	}
 	type genf func(*Rng) (string, connsim.Cfg)
 	plan := []struct {
@@ -70,35 +49,60 @@ func gen(a Args, out *Out) {
 		{12, connsim.GatedReadError},
 		{6, connsim.GatedSendVsTeardown},
 		{6, connsim.GatedDoubleClose},
+		{10, connsim.GatedOversizeBacklog},
+		{6, connsim.GatedReaderFirst},
 		{30, func(r *Rng) (string, connsim.Cfg) { return connsim.FreeStream(r, false) }},
 		{16, func(r *Rng) (string, connsim.Cfg) { return connsim.FreeStream(r, true) }},
 		{12, connsim.FreeRace},
 		{10, connsim.FreeInbound},
+		{14, connsim.FreeImmediate},
+		{12, connsim.FreeOversizeTail},
+		{12, connsim.WriteFail},
 	}
+	var jobs []job
+	var ins []Sx
 	for _, p := range plan {
 		r := rng.Fork()
 		for k := 0; k < p.n*mult; k++ {
 			kind, c := p.f(r)
-			emit(kind, c)
+			jobs = append(jobs, job{kind, c})
+			ins = append(ins, c.Sx())
 		}
 	}
-}
-
-func itoa(n int) string {
-	if n == 0 {
-		return "0"
+	results := connsim.RunBatch(ins)
+	for i, j := range jobs {
+		c := j.cfg
+		out.Case(j.kind, connsim.Nontrivial(c), ins[i], results[i].Obs)
+		np := 0
+		for _, s := range c.Senders {
+			np += len(s)
+			for _, p := range s {
+				if p.Size >= 61427 {
+					out.Count("packets-over-codec-limit")
+				}
+			}
+		}
+		out.CountN("packets-offered", np)
+		out.CountN("inbound-frames-offered", len(c.Input))
+		out.Count("codec:V" + strconv.Itoa(c.Codec))
+		if c.Cipher {
+			out.Count("cipher:on")
+		} else {
+			out.Count("cipher:off")
+		}
+		out.Count("ocap:" + strconv.Itoa(c.Ocap))
+		for _, n := range results[i].Notes {
+			switch {
+			case strings.HasPrefix(n, "stuck:"):
+				out.Count("stuck-state-established")
+				out.Note("%s: %s", j.kind, n)
+			case strings.HasPrefix(n, "crash:"):
+				out.Count("scenario-process-crashed")
+				out.Note("%s: %s", j.kind, n)
+			default:
+				out.Count("inconclusive-observation")
+				out.Note("%s: inconclusive: %s", j.kind, n)
+			}
+		}
 	}
-	s := ""
-	neg := n < 0
-	if neg {
-		n = -n
-	}
-	for n > 0 {
-		s = string(rune('0'+n%10)) + s
-		n /= 10
-	}
-	if neg {
-		s = "-" + s
-	}
-	return s
 }
